@@ -33,28 +33,14 @@ def check_deviations(ctx, res, obs_cfg, relevant):
         line = dict(world=world_of(case, k + 1), pre=pre, act=d["action"], post=d["state"]["obs"])
         lines.setdefault(vflib.canon(line), (line, d, case))
     keys = list(lines)
-    path = os.path.join(ctx.work, "observed.ndjson")
     bad = 0
-    remaining = keys
-    for _ in range(8):
-        if not remaining:
-            break
-        with open(path, "w") as f:
-            for k in remaining:
-                f.write(json.dumps(lines[k][0]) + "\n")
-        r = ctx.tlc("BlockTree", "BlockTreeObs", obs_cfg, name="observed", env={"OBS": path}, expect_violation=True, workers=1)
-        if not r.violated:
-            break
-        m = re.search(r'lastAct = <<"observed", (\d+)>>', open(r.log_path).read())
-        i = int(m.group(1)) - 1 if m else 0
-        line, d, case = lines[remaining[i]]
-        if r.violated in relevant:
-            ctx.violation("obs:%s:%s" % (r.violated, vflib.digest([d["action"], line["post"]])),
-                          "node state after %s breaks %s: observed %s (prediction differed: %s)" % (
-                              vflib.canon(d["action"]), r.violated, vflib.canon(line["post"]), d["why"]),
-                          dict(adapter="blocktree", mode="replay", args=res.get("args", []), case=case, mismatch=d, invariant=r.violated))
-            bad += 1
-        remaining = remaining[:i] + remaining[i + 1:]
+    for i, inv in vflib.judge(ctx, "BlockTree", "BlockTreeObs", obs_cfg, [lines[k][0] for k in keys], invariants=sorted(relevant)):
+        line, d, case = lines[keys[i]]
+        ctx.violation("obs:%s:%s" % (inv, vflib.digest([d["action"], line["post"]])),
+                      "node state after %s breaks %s: observed %s (prediction differed: %s)" % (
+                          vflib.canon(d["action"]), inv, vflib.canon(line["post"]), d["why"]),
+                      dict(adapter="blocktree", mode="replay", args=res.get("args", []), case=case, mismatch=d, invariant=inv))
+        bad += 1
     ctx.extra["benign_deviation_states"] = ctx.extra.get("benign_deviation_states", 0) + len(keys) - bad
 
 
